@@ -135,7 +135,96 @@ def check_life(pid, tier, seed):
     shutil.rmtree(wd, ignore_errors=True)
     return 1 if bad else 0
 
+def tlc_plain(spec, cfg, workdir, timeout=900, workers=12):
+    """TLC on a small side specification (Fee, Tlv, Wire, ...). Returns (generated, distinct, out)."""
+    os.makedirs(workdir, exist_ok=True)
+    meta = f"{workdir}/meta_{os.path.basename(cfg)}"
+    p = subprocess.run(["timeout", str(timeout), "tlc", "-workers", str(workers), "-metadir", meta, "-cleanup",
+                        "-noGenerateSpecTE", "-config", cfg, spec], cwd=VERIF + "/spec", capture_output=True, text=True)
+    shutil.rmtree(meta, ignore_errors=True)
+    st = life.STATS.search(p.stdout)
+    if p.returncode == 124:
+        raise run.ToolError(f"TLC timed out on {spec}")
+    if "Error:" in p.stdout or not st:
+        raise run.ToolError(f"{spec}/{cfg}: TLC reports an error on the specification itself:\n" + p.stdout[-3000:])
+    return int(st.group(1)), int(st.group(2)), p.stdout
+
+def check_c12(tier, seed):
+    """C12: Fee.tla exhaustive at reduced width; the real function at 64 bits in both builds judged by
+    FeeTrace.tla (BigNat); the encoding of the failure; the lifecycle clauses via the Observer."""
+    from . import feegen
+    t0 = time.time()
+    pid = "C12"
+    known = load_known()
+    wd = f"{VERIF}/work/C12_{tier}"
+    shutil.rmtree(wd, ignore_errors=True); os.makedirs(wd)
+    run.cargo_build(); run.cargo_build("wrap")
+    thorough = tier == "thorough"
+    g, d, _ = tlc_plain("Fee.tla", "Fee.cfg" if not thorough else "FeeBig.cfg", wd)
+    vs = feegen.vectors(seed, 60000 if thorough else 8000) + feegen.enc_vectors(seed, 3000 if thorough else 900)
+    with open(wd + "/v.ndjson", "w") as f:
+        for v in vs:
+            f.write(json.dumps(v) + "\n")
+    outs = []
+    for prof in ("debug", "wrap"):
+        o = f"{wd}/o_{prof}.ndjson"
+        p = subprocess.run([f"{VERIF}/target/harness/{prof}/vfh", "fee", wd + "/v.ndjson", o], capture_output=True, text=True)
+        if p.returncode != 0:
+            raise run.ToolError("vfh fee failed: " + p.stderr[-1000:])
+        outs.append(o)
+    bad = []; k4 = 0; nlines = 0
+    samples = []
+    for o in outs:
+        rc, out = run.tlc_trace("FeeTrace.tla", "FeeTrace.cfg", o, wd + "/ft")
+        done = [l for l in out.splitlines() if "FEEDONE" in l]
+        if not done:
+            raise run.ToolError("FeeTrace did not finish:\n" + out[-2000:])
+        nums = [int(x) for x in done[0].strip("<>").replace('"FEEDONE",', "").split(",")]
+        nlines += nums[0]; k4 += nums[2]
+        lines = open(o).read().splitlines()
+        samples.append(json.loads(lines[0])); samples.append(json.loads(lines[len(lines) // 3]))
+        for l in out.splitlines():
+            if "FEEVIOL" in l:
+                idx = int(l.split(",")[1])
+                bad.append((o, idx, json.loads(lines[idx - 1])))
+    # lifecycle clauses (failure carries the policy; first HTLC of a fresh payment)
+    jobs, sstats = life.build_jobs(pid, tier, seed, wd)
+    for name in life.LIFE[pid]["models"]:
+        g2, d2, _ = life.tlc_design(name, models.ALLPROPS, wd, 900, workers=14, seed=seed)
+        g += g2; d += d2
+    files = run.run_harness(jobs, wd + "/h")
+    viol, ll = run.observe(files, wd + "/o")
+    lbad, kn = judge(pid, viol, known)
+    byrun = {j["run"]: j for j in jobs}
+    nviol = 0
+    if k4:
+        ent = [k for k in known["known"] if k["id"] == "K4"]
+        if ent:
+            print(f"KNOWN-FINDING: property=C12 K4 {ent[0]['what']} ({k4} vectors)")
+        else:
+            bad.append(("K4", 0, {"what": "MulOverflowReject deviation not listed as known finding"}))
+    os.makedirs(REPLAYS, exist_ok=True)
+    for (o, idx, rec) in bad[:3]:
+        p = f"{REPLAYS}/C12_vec{idx}.json"
+        json.dump({"property": pid, "kind": "fee", "record": rec}, open(p, "w"))
+        print(f"VIOLATION property=C12 replay={p}")
+    for (runno, why) in lbad[:3]:
+        p = save_replay(pid, runno, byrun[runno], trace_excerpt(files, runno, 400), why)
+        print(f"VIOLATION property=C12 replay={p}")
+    nviol = len(bad) + len(lbad)
+    cov = {"states": d, "transitions": g, "traces_validated_against_impl": len(jobs) + nlines, "samples": samples,
+           "fee_vectors_per_build": len(vs), "builds": ["overflow-checks", "wrapping"], "k4_vectors": k4,
+           "lifecycle_runs": len(jobs), "lifecycle_lines": ll, "exhaustive": False,
+           "rule": "Fee.tla: all (total, amount, base, ppm) tuples at reduced word width (exhaustive); real function: boundary "
+                   "vectors of every checked operation and of the predicate itself plus seeded random ones, in both builds, each "
+                   "compared with the exact predicate computed over BigNat by FeeTrace.tla"}
+    write_evidence(pid, tier, seed, "model_checking", cov, time.time() - t0, nviol)
+    shutil.rmtree(wd, ignore_errors=True)
+    return 1 if nviol else 0
+
 def check(pid, tier, seed):
+    if pid == "C12":
+        return check_c12(tier, seed)
     if pid in life.LIFE:
         return check_life(pid, tier, seed)
     print("no check registered for", pid)
